@@ -17,6 +17,8 @@ INVARIANT DeclaredMagnitudeInside
 INVARIANT PartialWithinInterval
 INVARIANT UnsetMeansWholeAtmosphere
 INVARIANT InvertedBoundsNeverOutsideHull
+INVARIANT WindowExtentConserved
+INVARIANT FlatIsCoveredFraction
 INVARIANT FitsInv
 CONSTRAINT Emit
 CHECK_DEADLOCK FALSE
